@@ -1,5 +1,5 @@
 import Mathlib.Analysis.Complex.Norm
-import GeomV.C19.Net
+import GeomV.C19.Build
 /-!
 # C19 — property theorems
 -/
@@ -301,5 +301,50 @@ theorem C19_unreachable (geo : Geo α) (pick : Pick α) (ord : Nat → List Nat 
     exact absurd ⟨es, h3, h2⟩ hdis
   · refine ⟨⟨[], 0, 0, geo.euclid from_ s.p, geo.euclid to_ t.p, s.id, t.id⟩, ?_, rfl, rfl, rfl, rfl, rfl⟩
     simp only [shortestRoute, hs, ht, hst, hto, collect]
+
+/-! ### all histories -/
+
+theorem binv_new (o : Opt) : BInv (newNetwork o : Net α) := by
+  refine ⟨rfl, ?_, ?_, ?_, ?_, ?_⟩ <;> intro x hx <;> simp [newNetwork] at hx
+
+/-- **Every sequence of AddLink calls gives a well-formed network** (no bound on the history):
+node ids are `1 … |nodes|`, every stored link joins two distinct stored nodes, lengths and times are
+non-negative, `time = length / speed`, and every speed is positive and at most the tracked maximum
+speed (what `heuristic_consistent` needs).  Hypotheses: the R-tree returns a stored node, `op.Length`
+is non-negative, speeds are positive (the property's quantifier). -/
+theorem build_wf (geo : Geo α) (hc : GeoContract geo) (o : Opt) (ls : List (Link α)) (net : Net α)
+    (hsp : ∀ l ∈ ls, 0 < l.speed) (h : build geo o ls = .ok net) :
+    WF net ∧ ∀ e ∈ net.edges, 0 < e.speed ∧ e.speed ≤ net.maxSpeed ∧ e.time = e.length / e.speed := by
+  have := buildFrom_inv geo hc ls (newNetwork o) net 0 (binv_new o) hsp h
+  exact ⟨this.wf, this.speed⟩
+
+/-- **C19 for networks built by any AddLink history** — `build_wf`, `heuristic_consistent` and
+`C19_route` composed: the only remaining hypotheses are the contracts of the geometric primitives
+(`GeoContract`, triangle inequality, link length ≥ distance between its end nodes), the heap contract,
+the quantifier of the property (positive speeds, no parallel links; self-loops make `build` fault),
+and that the two nearest nodes are connected. -/
+theorem C19_built (geo : Geo α) (pick : Pick α) (ord : Nat → List Nat → List Nat) (o : Opt)
+    (ls : List (Link α)) (net : Net α) (from_ to_ : Pt α) (s t : MNode α)
+    (hb : build geo o ls = .ok net) (hsp : ∀ l ∈ ls, 0 < l.speed) (hc : GeoContract geo)
+    (htri : ∀ p q r, geo.euclid p r ≤ geo.euclid p q + geo.euclid q r)
+    (hchord : ∀ e ∈ net.edges, ∀ pa pb, nodePos net e.a = some pa → nodePos net e.b = some pb →
+      geo.euclid pa pb ≤ e.length ∧ geo.euclid pb pa ≤ e.length)
+    (hP : PickSpec pick) (hord : ∀ u l x, x ∈ ord u l ↔ x ∈ l) (hnp : NoParallel net)
+    (hs : geo.nearest net.nodes from_ = some s) (ht : geo.nearest net.nodes to_ = some t)
+    (hconn : ∃ es0, (∀ e ∈ es0, e ∈ net.edges) ∧ EChain s.id es0 t.id) :
+    ∃ r es, shortestRoute geo pick true ord net from_ to_ = .ok r ∧
+      r.startNode = s.id ∧ r.endNode = t.id ∧
+      r.startDistance = geo.euclid from_ s.p ∧ r.endDistance = geo.euclid to_ t.p ∧
+      r.links = es.map (·.link) ∧ (∀ e ∈ es, e ∈ net.edges) ∧ EChain s.id es t.id ∧
+      r.distance = esum (·.length) es ∧ r.time = esum (·.time) es ∧
+      ∀ es', (∀ e ∈ es', e ∈ net.edges) → EChain s.id es' t.id →
+        esum (ecost net.opt) es ≤ esum (ecost net.opt) es' := by
+  obtain ⟨hwf, hspeed⟩ := build_wf geo hc o ls net hsp hb
+  exact C19_route geo pick ord net from_ to_ s t hP hord hwf hnp hc.nearestMem hs ht
+    (heuristic_consistent geo net ord hord hwf ⟨htri, hchord, hspeed⟩ t.id) hconn
+
+/-! ### non-vacuity: the hypotheses are satisfiable together (a two-link network over ℚ) -/
+
+example : PickSpec (pickMin : Pick ℚ) := pickMin_spec
 
 end GeomV.C19
